@@ -7,7 +7,7 @@ import mqtt_ref as ref
 def parse(out):
     body, _, tail = out.rpartition(" ; ")
     evs = [] if body == "-" else body.split(" | ")
-    st = dict(kv.split("=") for kv in tail.split())
+    st = dict(kv.split("=", 1) for kv in tail.split())
     return evs, st
 
 
@@ -41,7 +41,7 @@ class StreamScenario:
         self.tr.append((line, evs, st, self.now))
         for e in evs:
             ws = e.split()
-            if ws[0] == "sock": self.socks[ws[1]] = dict(connecting=False, rd=None, wr=None, shut=False, closed=False, wrote=[], hs=None, ok=None, creq=set())
+            if ws[0] == "sock": self.socks[ws[1]] = dict(connecting=False, rd=None, wr=None, shut=False, closed=False, wrote=[], hs=None, hsq=[], ok=None, creq=set())
             elif ws[0] == "connect": self.socks[ws[1]]["connecting"] = True
             elif ws[0] == "srd": self.socks[ws[1]]["rd"] = int(ws[2])
             elif ws[0] == "swr":
@@ -93,6 +93,8 @@ class StreamScenario:
             wp = [(0x18, 5)] if rng.random() < 0.5 else []
             self.will = dict(topic=b"w/t", message=rng.choice([b"", b"bye"]), qos=rng.randint(0, 2), retain=rng.randint(0, 1), props=wp)
             cfg += f" will={self.will['topic'].hex()}/{self.will['message'].hex() or '-'}/{self.will['qos']}/{self.will['retain']}/{ref.plist_text(wp) or '-'}"
+        self.auth = rng.random() < 0.25
+        if self.auth: cfg += " auth=6d"
         self.lazy = self.profile != "friendly" and rng.random() < 0.4
         if self.lazy: cfg += " lazycancel=1"
         self.do(cfg)
@@ -172,7 +174,10 @@ class StreamScenario:
                     s["connecting"] = False; self.do(f"conn {k} {r}"); self.count("conn-" + r)
             elif kind == "hs-wdone":
                 r = rng.choice(["ok"] * 6 + ["reset", "broken_pipe"]); s["wr"] = None
-                if r == "ok" and s["hs"] is None: s["hs"] = bytearray(self.connack_bytes(k))
+                if r == "ok":
+                    if s["hs"] is None:
+                        s["hs"] = bytearray(); s["hsq"] = self.broker_handshake(k)
+                    if s["hsq"]: s["hs"] += s["hsq"].pop(0)
                 self.do(f"swdone {k} {r}")
             elif kind == "hs-rx":
                 buf = s["hs"]
@@ -194,6 +199,17 @@ class StreamScenario:
             elif kind == "shutdone": s["shut"] = False; self.do(f"sshutdone {k}")
         return True
 
+    def broker_handshake(self, k):
+        """packets the broker sends during the handshake, one per client write: with an authenticator 0-2 AUTH (continue) rounds, then the CONNACK"""
+        rng = self.rng
+        out = []
+        if self.auth and self.profile != "hostile":
+            for _ in range(rng.choice([0, 0, 1, 2])):
+                out.append(ref.e_packet(0xF0, bytes([0x18]) + ref.e_props([(0x15, b"m"), (0x16, b"chal")] if rng.random() < 0.9 else [(0x15, b"x")])))
+                self.count("auth-round")
+        out.append(self.connack_bytes(k))
+        return out
+
     def connack_bytes(self, k):
         rng = self.rng
         r = rng.random()
@@ -202,6 +218,10 @@ class StreamScenario:
             sp = rng.randint(0, 1); ps = []
             if rng.random() < 0.3: ps.append((0x21, rng.choice([1, 5])))
             if rng.random() < 0.2: ps.append((0x13, rng.choice([0, 7])))
+            if rng.random() < 0.2: ps.append((0x24, rng.choice([0, 1])))
+            if rng.random() < 0.15: ps.append((0x27, rng.choice([64, 200])))
+            if rng.random() < 0.15: ps += [(0x26, (b"k", b"v")), (0x26, (b"k", b"w"))]
+            if self.auth: ps += [(0x15, b"m")] + ([(0x16, b"fin")] if rng.random() < 0.5 else [])
             s["ok"] = True
             self.count("connack-ok"); return ref.e_connack(sp, 0, ps)
         s["ok"] = False
